@@ -227,8 +227,22 @@ pub const DEVIATIONS: &[Dev] = &[
         variants(f, "Shape")[0].docs = vec![Doc::Line("round\nthing".into())];
         item(f, "Names").docs = vec![Doc::Block("a block\n doc".into())];
     }),
+    // multi-line docs on the remaining levels: the enum types themselves, unit variants, struct-variant fields
+    ("docs-multi-line-enum-levels", |f, _| {
+        item(f, "Color").docs = vec![Doc::Line("a colour\nof the rainbow".into()), Doc::Line("third line".into())];
+        item(f, "Shape").docs = vec![Doc::Line("a shape\nin the plane".into()), Doc::Attr("attr doc\nwith a break".into())];
+        variants(f, "Color")[0].docs = vec![Doc::Line("warm\ncolour".into())];
+        variants(f, "Shape")[1].docs = vec![Doc::Block("four\n corners".into())];
+        rect_fields(f)[0].docs = vec![Doc::Line("the\nwidth".into())];
+    }),
     ("tag-content-keywords", |f, _| set_keys(f, "case", "default")),
     ("tag-content-keywords-2", |f, _| set_keys(f, "in", "class")),
+    // program rewrites that must not matter (see prog::ambient)
+    ("ambient-noise-attributes", |f, _| *f = ambient(f, 1)),
+    ("ambient-inside-modules", |f, _| *f = ambient(f, 2)),
+    ("ambient-items-reversed", |f, _| *f = ambient(f, 3)),
+    ("ambient-noise-items", |f, _| *f = ambient(f, 4)),
+    ("ambient-attribute-style-flipped", |f, _| *f = ambient(f, 5)),
     ("tag-content-upper", |f, _| set_keys(f, "Kind", "Payload")),
     ("header", |_, c| c.header = true),
     ("prefix", |_, c| c.prefix = "OP".into()),
